@@ -291,3 +291,60 @@ Proof.
   destruct o; cbn in Es; inversion Es; subst; try reflexivity.
   unfold spec_commit. now destruct (ckey_eqb k (g, t, p)).
 Qed.
+
+(* final-state relations, and OffsetFetch end to end *)
+Lemma im_run_rel ops : forall s sp,
+  forallb is_coff_op ops = true -> im_coff_rel s sp ->
+  im_coff_rel (fst (im_run s ops)) (fst (spec_run sp ops)).
+Proof.
+  induction ops as [|o ops IH]; intros s sp Hall R; [exact R|].
+  cbn in Hall. apply andb_true_iff in Hall as [Ho Hall].
+  destruct (im_step_spec s sp o Ho R) as [_ R'].
+  cbn [im_run spec_run].
+  destruct (im_step s o) as [s' r] eqn:Es. destruct (spec_step sp o) as [sp' r'] eqn:Esp.
+  cbn [fst snd] in *. specialize (IH s' sp' Hall R').
+  destruct (im_run s' ops) as [s2 rs]. destruct (spec_run sp' ops) as [sp2 rs'].
+  exact IH.
+Qed.
+
+Lemma et_run_rel ops : forall s sp,
+  forallb is_coff_op ops = true -> Forall op_topic_noslash ops -> et_coff_rel s sp ->
+  et_coff_rel (fst (et_run s ops)) (fst (spec_run sp ops)).
+Proof.
+  induction ops as [|o ops IH]; intros s sp Hall Hn R; [exact R|].
+  cbn in Hall. apply andb_true_iff in Hall as [Ho Hall]. inversion Hn as [|? ? Hn1 Hn2]; subst.
+  destruct (et_step_spec s sp o Ho Hn1 R) as [_ R'].
+  cbn [et_run spec_run].
+  destruct (et_step s o) as [s' r] eqn:Es. destruct (spec_step sp o) as [sp' r'] eqn:Esp.
+  cbn [fst snd] in *. specialize (IH s' sp' Hall Hn2 R').
+  destruct (et_run s' ops) as [s2 rs]. destruct (spec_run sp' ops) as [sp2 rs'].
+  exact IH.
+Qed.
+
+Definition fetch_answer (v : option (Z * bytes)) (p : Z) : Z * Z * bytes * Z :=
+  match v with Some (o, m) => (p, o, m, 0) | None => (p, -1, [], 0) end.
+
+Lemma offset_fetch_im b ops g req :
+  forallb is_coff_op ops = true ->
+  offset_fetch (im_lookup (fst (im_run (im_new b) ops))) g req
+  = map (fun tp => (fst tp, map (fun p => fetch_answer (last_commit ops (g, fst tp, p)) p) (snd tp))) req.
+Proof.
+  intros Hall. pose proof (im_run_rel ops _ _ Hall (im_new_rel b)) as R.
+  unfold offset_fetch. apply map_ext. intros [t ps]. cbn [fst snd]. f_equal.
+  apply map_ext. intros p. unfold im_lookup, offset_fetch_part.
+  rewrite (R (g, t, p)), spec_run_state. cbn [spec_empty].
+  destruct (last_commit ops (g, t, p)) as [[o m]|]; reflexivity.
+Qed.
+
+Lemma offset_fetch_et b ops g req :
+  forallb is_coff_op ops = true -> Forall op_topic_noslash ops -> Forall (fun tp => noslash (fst tp)) req ->
+  offset_fetch (et_lookup (fst (et_run (et_new b) ops))) g req
+  = map (fun tp => (fst tp, map (fun p => fetch_answer (last_commit ops (g, fst tp, p)) p) (snd tp))) req.
+Proof.
+  intros Hall Hn Hreq. pose proof (et_run_rel ops _ _ Hall Hn (et_new_rel b)) as R.
+  unfold offset_fetch. apply map_ext_in. intros [t ps] Hin. cbn [fst snd]. f_equal.
+  rewrite Forall_forall in Hreq. specialize (Hreq _ Hin). cbn [fst] in Hreq.
+  apply map_ext. intros p. unfold et_lookup, offset_fetch_part.
+  rewrite (R g t p Hreq), spec_run_state. cbn [spec_empty].
+  destruct (last_commit ops (g, t, p)) as [[o m]|]; reflexivity.
+Qed.
